@@ -423,3 +423,187 @@ Theorem rec_data_col_correct m id ip orig col par :
   (forall p, In p ip -> (p < rows_of m)%nat /\ nth p par 0 = spec_col (matN m) p orig) ->
   rec_data_col m id ip col par = Some (map (fun d => nth d orig 0) id).
 Proof. intros. apply rec_data_col_hyps. unfold rec_hyps. tauto. Qed.
+
+(* ------------------------------------------------------------------------------------------- *)
+(* raid_data *)
+Theorem raid_data_col_correct m id ip orig col par :
+  good m orig col id -> (length orig <= 251)%nat ->
+  sorted_lt id = true -> sorted_lt ip = true -> length ip = length id ->
+  (forall d, In d id -> (d < length orig)%nat) ->
+  (forall p, In p ip -> (p < rows_of m)%nat /\ nth p par 0 = spec_col (matN m) p orig) ->
+  raid_data_col m (length orig) id ip col par = Some orig.
+Proof.
+  intros Hg H251 Hsid Hsip Hlip Hbid Hpar. unfold raid_data_col. cbv zeta.
+  assert (G1 : (length id <=? length orig)%nat = true).
+  { apply Nat.leb_le. apply sorted_lt_length_bound; assumption. }
+  assert (G2 : (length id <=? 6)%nat = true).
+  { apply Nat.leb_le. rewrite <- Hlip. pose proof (rows_of_le6 m).
+    assert (length ip <= rows_of m)%nat by (apply sorted_lt_length_bound; [exact Hsip|intros p Hp; apply (Hpar p Hp)]). lia. }
+  rewrite G1, G2, Hsid, Hsip, Hlip, Nat.eqb_refl. cbn [negb orb].
+  destruct id as [|a id'].
+  - cbn [length Nat.ltb Nat.leb andb]. f_equal. destruct Hg as [_ [_ [Hl Hag]]].
+    apply nth_ext with (d := 0) (d' := 0); [exact Hl|]. intros n _. apply Hag. intros [].
+  - assert (G3 : (last (a :: id') 0 <? length orig)%nat = true).
+    { apply Nat.ltb_lt. apply Hbid. apply last_In. discriminate. }
+    rewrite G3. cbn [negb]. rewrite andb_false_r.
+    change (length (a :: id')) with (S (length id')) at 1.
+    rewrite rec_data_col_hyps with (orig := orig).
+    + f_equal. apply set_many_orig; [apply Hg|exact Hbid|apply Hg].
+    + unfold rec_hyps. repeat split; try assumption; try (apply Hpar; assumption); try apply Hg. cbn [length]. lia.
+Qed.
+
+(* ------------------------------------------------------------------------------------------- *)
+(* raid_rec *)
+Lemma filter_lengths {A} (f : A -> bool) l :
+  (length (filter f l) + length (filter (fun x => negb (f x)) l) = length l)%nat.
+Proof.
+  induction l as [|a l IH]; [reflexivity|]. cbn [filter]. destruct (f a); cbn [negb length]; lia.
+Qed.
+
+Lemma in_failed_parities nd ir q :
+  In q (map (fun i => (i - nd)%nat) (filter (fun i => negb (i <? nd)%nat) ir)) <-> In (nd + q)%nat ir.
+Proof.
+  rewrite in_map_iff. split.
+  - intros [i [E Hi]]. apply filter_In in Hi. destruct Hi as [Hi Hge].
+    apply negb_true_iff in Hge. apply Nat.ltb_ge in Hge. replace (nd + q)%nat with i by lia. exact Hi.
+  - intros H. exists (nd + q)%nat. split; [lia|]. apply filter_In. split; [exact H|].
+    apply negb_true_iff. apply Nat.ltb_ge. lia.
+Qed.
+
+Lemma sorted_lt_map_sub nd l : sorted_lt l = true -> (forall i, In i l -> (nd <= i)%nat) ->
+  sorted_lt (map (fun i => (i - nd)%nat) l) = true.
+Proof.
+  induction l as [|a l IH]; intros Hs Hb; [reflexivity|].
+  destruct (sorted_lt_cons a l Hs) as [H1 H2]. cbn [map]. apply sorted_lt_cons_intro.
+  - apply IH; [exact H1|intros; apply Hb; right; assumption].
+  - intros b Hin. apply in_map_iff in Hin. destruct Hin as [i [<- Hi]].
+    specialize (H2 i Hi). specialize (Hb a (or_introl eq_refl)). lia.
+Qed.
+
+Lemma count_avail fp l : NoDup l ->
+  (length l <= length (filter (fun p => negb (existsb (Nat.eqb p) fp)) l) + length fp)%nat.
+Proof.
+  intros Hnd. pose proof (filter_lengths (fun p => existsb (Nat.eqb p) fp) l) as E.
+  assert (length (filter (fun p => existsb (Nat.eqb p) fp) l) <= length fp)%nat.
+  { apply NoDup_incl_length; [apply NoDup_filter; exact Hnd|].
+    intros x Hx. apply filter_In in Hx. apply existsb_eqb_In. apply Hx. }
+  lia.
+Qed.
+
+Theorem raid_rec_col_correct m nd np ir orig col par :
+  nd = length orig -> (1 <= nd <= 251)%nat -> (np <= rows_of m)%nat -> (length ir <= np)%nat ->
+  sorted_lt ir = true -> (forall i, In i ir -> (i < nd + np)%nat) -> length par = np ->
+  good m orig col (filter (fun i => (i <? nd)%nat) ir) ->
+  (forall p, (p < np)%nat -> ~ In (nd + p)%nat ir -> nth p par 0 = spec_col (matN m) p orig) ->
+  exists par', raid_rec_col m nd np ir col par = Some (orig, par') /\ length par' = np /\
+    (forall p q, In (nd + q)%nat ir -> (p <= q)%nat -> nth p par' 0 = spec_col (matN m) p orig) /\
+    (forall p, (forall q, In (nd + q)%nat ir -> (q < p)%nat) -> nth p par' 0 = nth p par 0) /\
+    ((forall q, ~ In (nd + q)%nat ir) -> par' = par).
+Proof.
+  intros Hndeq Hnd Hnp Hnr Hs Hb Hlp Hg Hpar.
+  unfold raid_rec_col. cbv zeta.
+  set (id := filter (fun i => (i <? nd)%nat) ir) in *.
+  set (fp := map (fun i => (i - nd)%nat) (filter (fun i => negb (i <? nd)%nat) ir)).
+  set (avail := filter (fun p => negb (existsb (Nat.eqb p) fp)) (seq 0 np)).
+  set (ip := firstn (length id) avail).
+  (* the argument checks *)
+  pose proof (rows_of_le6 m) as H6.
+  assert (G1 : (length ir <=? np)%nat = true) by (apply Nat.leb_le; exact Hnr).
+  assert (G2 : (np <=? 6)%nat = true) by (apply Nat.leb_le; lia).
+  assert (G3 : ((0 <? length ir)%nat && negb (last ir 0 <? nd + np)%nat)%bool = false).
+  { destruct ir as [|i0 ir']; [reflexivity|].
+    assert (E : (last (i0 :: ir') 0 <? nd + np)%nat = true) by (apply Nat.ltb_lt; apply Hb; apply last_In; discriminate).
+    rewrite E. apply andb_false_r. }
+  rewrite G1, G2, Hs, G3. cbn [negb orb].
+  (* the index sets *)
+  assert (Hinfp : forall q, In q fp <-> In (nd + q)%nat ir) by (intros q; apply in_failed_parities).
+  assert (Hsplit : (length id + length fp = length ir)%nat).
+  { unfold fp. rewrite map_length. apply filter_lengths. }
+  assert (Hsid : sorted_lt id = true) by (apply sorted_lt_filter; exact Hs).
+  assert (Hbid : forall d, In d id -> (d < length orig)%nat).
+  { intros d Hd. apply filter_In in Hd. destruct Hd as [_ Hd]. apply Nat.ltb_lt in Hd. lia. }
+  assert (Hsfp : sorted_lt fp = true).
+  { apply sorted_lt_map_sub; [apply sorted_lt_filter; exact Hs|].
+    intros i Hi. apply filter_In in Hi. destruct Hi as [_ Hi]. apply negb_true_iff in Hi. apply Nat.ltb_ge in Hi. exact Hi. }
+  assert (Hfpb : forall q, In q fp -> (q < np)%nat).
+  { intros q Hq. apply Hinfp in Hq. specialize (Hb _ Hq). lia. }
+  assert (Havail : forall p, In p avail -> (p < np)%nat /\ ~ In (nd + p)%nat ir).
+  { intros p Hp. apply filter_In in Hp. destruct Hp as [Hp1 Hp2]. apply in_seq in Hp1.
+    apply negb_true_iff in Hp2. apply existsb_eqb_In' in Hp2. split; [lia|]. intros Hin. apply Hp2. apply Hinfp. exact Hin. }
+  assert (Hcount : (length id <= length avail)%nat).
+  { pose proof (count_avail fp (seq 0 np) (seq_NoDup np 0)) as Hc. rewrite seq_length in Hc. fold avail in Hc. lia. }
+  assert (Hlip : length ip = length id) by (apply firstn_length_le; exact Hcount).
+  assert (Hsip : sorted_lt ip = true) by (apply sorted_lt_firstn; apply sorted_lt_filter; apply sorted_lt_seq).
+  assert (Hpip : forall p, In p ip -> (p < rows_of m)%nat /\ nth p par 0 = spec_col (matN m) p orig).
+  { intros p Hp. apply firstn_In in Hp. destruct (Havail p Hp) as [Hp1 Hp2]. split; [lia|apply Hpar; assumption]. }
+  (* the data *)
+  assert (Hcol : match length id with
+                 | O => Some col
+                 | S _ => match rec_data_col m id ip col par with
+                          | None => None
+                          | Some rec => Some (set_many id rec col)
+                          end
+                 end = Some orig).
+  { destruct (length id) as [|n] eqn:E.
+    - f_equal. apply length_zero_iff_nil in E. destruct Hg as [_ [_ [Hl Hag]]]. rewrite E in Hag.
+      apply nth_ext with (d := 0) (d' := 0); [exact Hl|]. intros k _. apply Hag. intros [].
+    - rewrite rec_data_col_hyps with (orig := orig).
+      + f_equal. apply set_many_orig; [apply Hg|exact Hbid|apply Hg].
+      + unfold rec_hyps. repeat split; try assumption; try (apply Hpip; assumption); try apply Hg; lia. }
+  rewrite Hcol. clear Hcol.
+  (* the parities *)
+  clearbody fp. destruct fp as [|q0 fp'].
+  - exists par. split; [reflexivity|]. split; [exact Hlp|]. split; [|split; [reflexivity|reflexivity]].
+    intros p q Hq _. apply Hinfp in Hq. destruct Hq.
+  - set (fp := q0 :: fp') in *. set (k := S (last fp 0%nat)).
+    assert (Hlast : In (last fp 0%nat) fp) by (apply last_In; discriminate).
+    assert (Hk : (k <= np)%nat) by (specialize (Hfpb _ Hlast); unfold k; lia).
+    assert (Hg' : raid_gen_col m k orig = map (fun p => spec_col (matN m) p orig) (seq 0 k)).
+    { apply raid_gen_col_spec; [unfold k; lia| |lia|apply Hg].
+      intros E. rewrite E in Hndeq. cbn [length] in Hndeq. lia. }
+    exists (raid_gen_col m k orig ++ skipn k par). split; [reflexivity|].
+    assert (Hlg : length (raid_gen_col m k orig) = k) by (rewrite Hg', map_length, seq_length; reflexivity).
+    split; [rewrite app_length, skipn_length, Hlg; lia|]. split; [|split].
+    + intros p q Hq Hpq. apply Hinfp in Hq. pose proof (sorted_lt_last fp q Hsfp Hq) as Hql.
+      rewrite app_nth1 by (rewrite Hlg; unfold k; lia). rewrite Hg'.
+      rewrite (nth_map_seq (fun p => spec_col (matN m) p orig)) by (unfold k; lia). reflexivity.
+    + intros p Hp. assert (Hpk : (k <= p)%nat) by (specialize (Hp _ (proj1 (Hinfp _) Hlast)); unfold k; lia).
+      rewrite app_nth2 by (rewrite Hlg; exact Hpk). rewrite Hlg, nth_skipn_add. f_equal. lia.
+    + intros Hno. exfalso. apply (Hno (last fp 0%nat)). apply Hinfp. exact Hlast.
+Qed.
+
+(* ------------------------------------------------------------------------------------------- *)
+(* a concrete instance: 4 data disks, 3 parities (Cauchy), data 1 and 3 and parity 0 lost *)
+Definition ex_orig : list N := [0x11; 0xA7; 0x3C; 0xF0].
+Definition ex_par : list N := map (fun p => spec_col (matN Cauchy) p ex_orig) (seq 0 3).
+Definition ex_col : list N := [0x11; 0x00; 0x3C; 0x55].          (* garbage in the lost positions *)
+Definition ex_par_in : list N := set_nth 0 0xEE ex_par.           (* garbage in the lost parity *)
+
+Example raid_rec_col_example :
+  raid_rec_col Cauchy 4 3 [1; 3; 4]%nat ex_col ex_par_in = Some (ex_orig, ex_par).
+Proof. vm_compute. reflexivity. Qed.
+
+Example raid_rec_col_example_hyps :
+  4%nat = length ex_orig /\ (1 <= 4 <= 251)%nat /\ (3 <= rows_of Cauchy)%nat /\ (length [1; 3; 4]%nat <= 3)%nat /\
+  sorted_lt [1; 3; 4]%nat = true /\ (forall i, In i [1; 3; 4]%nat -> (i < 4 + 3)%nat) /\ length ex_par_in = 3%nat /\
+  good Cauchy ex_orig ex_col (filter (fun i => (i <? 4)%nat) [1; 3; 4]%nat) /\
+  (forall p, (p < 3)%nat -> ~ In (4 + p)%nat [1; 3; 4]%nat -> nth p ex_par_in 0 = spec_col (matN Cauchy) p ex_orig).
+Proof.
+  repeat split; try (cbn; lia).
+  - intros i [<-|[<-|[<-|[]]]]; lia.
+  - unfold bytes, ex_orig. repeat constructor.
+  - unfold bytes, ex_col. repeat constructor.
+  - intros d Hd. cbn in Hd. do 4 (destruct d as [|d]; [try reflexivity; exfalso; apply Hd; tauto|]).
+    destruct d; reflexivity.
+  - intros p Hp Hin. destruct p as [|[|[|p]]]; [exfalso; apply Hin; cbn; tauto| | |lia]; vm_compute; reflexivity.
+Qed.
+
+(* and one through raid_data with the parities 1 and 2 (the general routine, Vandermonde-free) *)
+Example raid_data_col_example :
+  raid_data_col Cauchy 4 [1; 3]%nat [1; 2]%nat ex_col ex_par = Some ex_orig.
+Proof. vm_compute. reflexivity. Qed.
+
+Print Assumptions recX_col_correct.
+Print Assumptions rec_data_col_correct.
+Print Assumptions raid_data_col_correct.
+Print Assumptions raid_rec_col_correct.
